@@ -3,7 +3,7 @@
 Decided: C07.a–f of DESIGN.md §3. Not decided: soundness of real versions after real histories."""
 import re
 
-from rules.engine import (origins, origin_callees, deep_origins, short, hir_walk, hir_expr_str, hir_sites, must_pass,
+from rules.engine import (control_deps_transitive, origins, origin_callees, deep_origins, short, hir_walk, hir_expr_str, hir_sites, must_pass,
                           success_cuts, witness_path, describe_path, codec_skeleton, split_sections, compare_skeletons,
                           hir_tail_name)
 from rules import anchors as A
@@ -199,6 +199,61 @@ def c07c(prog, R, rid="C07.c"):
     ok = bool(fk) and all("self.meta.first_key.is_none()" in s.guard_texts() for s in fk) and \
         all(hir_expr_str(s.node["r"]) == "std::option::Option::Some(user_key.clone())" for s in fk) and lets.get("user_key") == "item.key.user_key.clone()"
     r.check(ok, "%s|first_key set once, from the item's user key" % f.path, "first_key handling changed", f.where())
+    # per-stream counters must not be decided by block-local state: whatever spill_block resets (the chunk buffer, its
+    # size) starts from scratch at every block boundary, so a counter that looks at it miscounts items that straddle one
+    g0 = prog.need("table::writer::Writer::spill_block")
+    reset = set()
+    for c in g0.calls:
+        if c.sres.endswith(("Vec::clear", "VecDeque::clear")) and c.args:
+            for o in origins(g0, c.args[0]):
+                if o.kind == "param" and o.what == 1 and o.path:
+                    reset.add(o.path[0])
+    for b_ in g0.blocks:
+        for st in b_["stmts"]:
+            if st["k"] == "assign" and "p" in st["to"] and st["rv"]["k"] == "use" and st["rv"]["op"].get("o") == "const":
+                flds = [e[1:].split(":")[0] for e in st["to"]["p"] if e.startswith(".")]
+                if flds and flds[0] != "meta":
+                    reset.add(flds[0])
+    r.check({"chunk", "chunk_size"} <= reset, "%s|resets the block-local buffer (chunk, chunk_size)" % g0.path,
+            "spill_block no longer resets chunk / chunk_size (found %s)" % sorted(reset), g0.where(), str(sorted(reset)))
+
+    def self_fields(fn_, op, depth=6, seen=None):
+        seen = seen if seen is not None else set()
+        out = set()
+        if depth < 0 or op is None:
+            return out
+        for o in origins(fn_, op):
+            if o.kind == "param" and o.what == 1 and o.path:
+                out.add(o.path[0])
+            elif o.kind == "call" and o.extra.bb not in seen:
+                seen.add(o.extra.bb)
+                for a_ in o.extra.args:
+                    out |= self_fields(fn_, a_, depth - 1, seen)
+            elif o.kind in ("bin", "un", "discr", "other") and isinstance(o.extra, dict):
+                for k_ in ("a", "b", "op"):
+                    if isinstance(o.extra.get(k_), dict):
+                        out |= self_fields(fn_, o.extra[k_], depth - 1, seen)
+                if o.kind == "discr" and isinstance(o.extra.get("place"), dict):
+                    out |= self_fields(fn_, {"o": "copy", "l": o.extra["place"]["l"], "pl": o.extra["place"]}, depth - 1, seen)
+    
+        return out
+    counters = ("tombstone_count", "weak_tombstone_count", "weak_tombstone_reclaimable_count", "key_count", "first_key")
+    for fld in counters:
+        sb = store_blocks(f, ".%s:%s" % (fld, M))
+        if not sb:
+            r.anchor_missing("store into meta.%s in Writer::write" % fld)
+            continue
+        used = set()
+        for bb in sb:
+            for (a_, s_) in control_deps_transitive(f, bb):
+                t_ = f.blocks[a_]["term"]
+                if t_["k"] == "switch":
+                    used |= self_fields(f, t_["discr"])
+        bad = sorted(used & reset)
+        r.check(not bad, "%s|meta.%s is decided by the item and stream-persistent state only" % (f.path, fld),
+                "meta.%s is updated under a condition that reads block-local state (%s), which spill_block resets: items that "
+                "straddle a block boundary are miscounted and the stored metadata no longer equals the stream's" % (fld, bad),
+                f.where(), "reads %s" % sorted(used))
     # spill_block
     g = prog.need("table::writer::Writer::spill_block")
     wi = g.calls_to("table::block::Block::write_into")
@@ -231,7 +286,7 @@ def c07c(prog, R, rid="C07.c"):
     ix = [c for c in fin.calls if c.sres and c.sres.endswith("BlockIndexWriter::finish")]
     ok = bool(sp) and bool(ix) and all(fin.dominates(sp[0].bb, c.bb) for c in ix)
     r.check(ok, "%s|spills the last block before the index is written" % fin.path, "finish writes the index before the last data block", fin.where())
-    r.floor(14)
+    r.floor(20)
 
 
 META_PAIRS = {
